@@ -382,22 +382,19 @@ def CONT(fn, defines, replace=(), must=1, covers=1, **kw):
 
 CONT("cbor_new_indefinite_array", ["H_CTOR", "CALL=cbor_new_indefinite_array()"], must=4, covers=2, cost=3)
 CONT("cbor_array_push", ["H_ARRAY_PUSH"], replace=["cbor_isa_array", "cbor_array_is_definite", "_cbor_safe_to_multiply", "cbor_incref"],
-     must=7, covers=7, cost=60, timeout=900)
+     must=8, covers=7, cost=60, timeout=900)
 CONT("cbor_array_get", ["H_ARRAY_GET"], replace=["cbor_incref"], must=2, covers=3, cost=10, replay="array_get")
 CONT("cbor_array_replace", ["H_ARRAY_REPLACE"], replace=["cbor_incref", "cbor_intermediate_decref/cbor_intermediate_decref__child"],
      must=4, covers=3, cost=120, backend="cvc5", timeout=900)
-# cbor_array_set is a three-way dispatcher; its contract is discharged as three case proofs (index below / at /
-# above size, together exhaustive) because one query over both callee contracts did not finish (800 s, cvc5)
-for case in ("BELOW", "AT", "ABOVE"):
-    P(name="cont_array_set_" + case.lower(), props=dict(CONT_PROPS), lib=ITEMLIB, stubs=ITEM_STUBS + ["stubs/decref_ghost.c"],
-      contracts=CONT_CONTRACTS, harness="harness/ops.c", defines=["H_ARRAY_SET", "SET_CASE_" + case], enforce="cbor_array_set",
-      replace=["cbor_array_push", "cbor_array_replace"], must_exist=[r"cbor_array_set\.postcondition\.5"],
-      min_covers=1, cost=120, timeout=900)
+# cbor_array_set: specification asserted in the harness over the contracts of push and replace (see harness/ops.c)
+P(name="cont_array_set", props={"C12": [], "C04": [], "C06": [], "C01": SAFETY}, lib=ITEMLIB, stubs=ITEM_STUBS + ["stubs/decref_ghost.c"],
+  contracts=CONT_CONTRACTS, harness="harness/ops.c", defines=["H_ARRAY_SET"], enforce=None, also_verified=["cbor_array_set"],
+  replace=["cbor_array_push", "cbor_array_replace"], must_exist=[r"cbor_array_push\.precondition\.\d+"], min_covers=4, cost=120, timeout=900)
 CONT("cbor_new_indefinite_map", ["H_CTOR", "CALL=cbor_new_indefinite_map()"], must=4, covers=2, cost=3)
 CONT("_cbor_map_add_key", ["H_MAP_ADD_KEY"], replace=["cbor_isa_map", "cbor_map_is_definite", "cbor_map_handle", "_cbor_safe_to_multiply", "cbor_incref"],
-     must=7, covers=7, cost=60, timeout=900)
+     must=8, covers=7, cost=60, timeout=900)
 CONT("_cbor_map_add_value", ["H_MAP_ADD_VALUE"], replace=["cbor_isa_map", "cbor_map_handle", "cbor_incref"], must=2, covers=2, cost=30)
-CONT("cbor_map_add", ["H_MAP_ADD"], replace=["cbor_isa_map", "_cbor_map_add_key", "_cbor_map_add_value"], must=6, covers=7, cost=60, timeout=900)
+CONT("cbor_map_add", ["H_MAP_ADD"], replace=["cbor_isa_map", "_cbor_map_add_key", "_cbor_map_add_value"], must=5, covers=7, cost=60, timeout=900)
 CONT("cbor_bytestring_add_chunk", ["H_ADD_CHUNK", "MK=mk_indef_bytestring", "MKCHUNK=mk_def_bytestring", "ADD_CHUNK=cbor_bytestring_add_chunk"],
      replace=["cbor_isa_bytestring", "cbor_bytestring_is_indefinite", "cbor_bytestring_is_definite", "_cbor_safe_to_multiply", "cbor_incref"],
      must=6, covers=5, cost=60, timeout=900)
@@ -430,3 +427,61 @@ for nm, d, fn, must, cov in (("init", "H_STACK_INIT", "_cbor_stack_init", 1, 1),
       lib=STACKLIB, stubs=ITEM_STUBS + ["stubs/stack_limit.c"], contracts=STACK_CONTRACTS, harness="harness/stack.c",
       defines=[d, "CBOR_MAX_STACK_SIZE_IS_SYMBOLIC"], stack_symbolic=True, enforce=fn,
       must_exist=[r"%s\.postcondition\.%d" % (fn, must)], min_covers=cov, cost=5)
+
+# C09 / C14: relational lemmas over the cbor_stream_decode contract
+P(name="stream_prefix_progress_lemmas", props={"C09": [], "C14": [], "C08": []}, lib=STREAMLIB, stubs=REC_STUBS,
+  contracts=["contracts/streaming.h"], defines=["VERIF_STREAM_CONTRACT", "H_PREFIX"], harness="harness/stream_rel.c",
+  enforce=None, replace=["cbor_stream_decode"], must_exist=[r"cbor_stream_decode\.precondition\.\d+"], min_covers=3, cost=20)
+P(name="stream_independence_lemma", props={"C14": [], "C08": [], "C09": []}, lib=STREAMLIB, stubs=REC_STUBS,
+  contracts=["contracts/streaming.h"], defines=["VERIF_STREAM_CONTRACT", "H_INDEPENDENCE"], harness="harness/stream_rel.c",
+  enforce=None, replace=["cbor_stream_decode"], unwind=10, must_exist=[r"cbor_stream_decode\.precondition\.\d+"], min_covers=2, cost=20)
+
+# ------------------------------------------------------------------------------------------------
+# L3 serialization (C03, C07, C18, C20): per node kind, children through twins
+SERLIB = ITEMLIB + ["cbor/serialization.c", "cbor/encoding.c", "cbor/internal/encoders.c"]
+SER_STUBS = ITEM_STUBS + ["stubs/ser_ghost.c"]
+SER_CONTRACTS = ["contracts/items_ro.h", "contracts/items_ops.h", "contracts/memory_utils.h", "contracts/items_cont.h",
+                 "contracts/encoders.h", "contracts/serialization.h"]
+SER_TWINS = {"cbor_serialize": "cbor_serialize__child", "cbor_serialized_size": "cbor_serialized_size__child",
+             "cbor_serialize_bytestring": "cbor_serialize_bytestring__child", "cbor_serialize_string": "cbor_serialize_string__child"}
+SER_PROPS = {"C03": FUNC + ["loop"], "C07": FUNC + FRAME + ["loop"], "C18": FRAME, "C20": [], "C13": [], "C01": SAFETY, "C17": FRAME}
+ENC_ALL = ["cbor_encode_uint8", "cbor_encode_uint16", "cbor_encode_uint32", "cbor_encode_uint64", "cbor_encode_negint8",
+           "cbor_encode_negint16", "cbor_encode_negint32", "cbor_encode_negint64", "cbor_encode_bytestring_start",
+           "cbor_encode_string_start", "cbor_encode_array_start", "cbor_encode_map_start", "cbor_encode_tag",
+           "cbor_encode_indef_bytestring_start", "cbor_encode_indef_string_start", "cbor_encode_indef_array_start",
+           "cbor_encode_indef_map_start", "cbor_encode_break", "cbor_encode_ctrl", "cbor_encode_half", "cbor_encode_single",
+           "cbor_encode_double"]
+
+
+def SER(name, kind, fn, top=None, size=False, extra_defs=(), must=2, covers=2, props=None, loops=True, **kw):
+    P(name="ser_" + name, props=dict(props or SER_PROPS), lib=SERLIB, stubs=SER_STUBS, contracts=SER_CONTRACTS,
+      harness="harness/serialize.c",
+      defines=["SER_KIND_" + kind, "SER_FN=" + (top or fn), "VERIF_FIXED_NODES"] + (["SER_SIZE"] if size else []) + list(extra_defs),
+      enforce=fn, twins=SER_TWINS,
+      replace=list(SER_TWINS.values()) + ENC_ALL + ["_cbor_safe_signaling_add", "_cbor_encoded_header_size"],
+      loops="loops/serialization.json" if loops else None,
+      loop_fingerprint={"cbor_serialize_array": 1, "cbor_serialize_map": 1, "cbor_serialize_string": 1,
+                        "cbor_serialize_bytestring": 1, "cbor_serialized_size": 4} if loops else None,
+      must_exist=[r"%s\.postcondition\.%d" % (fn, must)], min_covers=covers, cost=60, timeout=900, object_bits=10, **kw)
+
+
+P(name="ser_encoded_header_size", props={"C07": FUNC + FRAME, "C20": FUNC, "C03": FUNC, "C01": SAFETY}, lib=SERLIB, stubs=SER_STUBS,
+  contracts=SER_CONTRACTS, harness="harness/memutils.c", defines=["H_HEADER_SIZE"], enforce="_cbor_encoded_header_size",
+  must_exist=[r"_cbor_encoded_header_size\.postcondition\.1"], min_covers=1, cost=3)
+for w in ("0", "1", "2", "3"):
+    SER("uint_w" + w, "INT", "cbor_serialize_uint", extra_defs=["VERIF_INT_WIDTH=" + w, "VERIF_INT_TYPE=CBOR_TYPE_UINT"], loops=False)
+    SER("negint_w" + w, "INT", "cbor_serialize_negint", extra_defs=["VERIF_INT_WIDTH=" + w, "VERIF_INT_TYPE=CBOR_TYPE_NEGINT"], loops=False)
+    SER("float_ctrl_w" + w, "FLOAT_CTRL", "cbor_serialize_float_ctrl", extra_defs=["VERIF_FLOAT_WIDTH=" + w], must=5, loops=False,
+        props=dict(SER_PROPS, C15=FUNC))
+SER("array", "ARRAY", "cbor_serialize_array", must=6, covers=4)
+SER("map", "MAP", "cbor_serialize_map", must=6, covers=4)
+SER("tag", "TAG", "cbor_serialize_tag", must=5, covers=2, replay="tag_readonly")
+SER("def_bytestring", "DEF_BYTESTRING", "cbor_serialize_bytestring", top="cbor_serialize_bytestring__top", must=6)
+SER("indef_bytestring", "INDEF_BYTESTRING", "cbor_serialize_bytestring", top="cbor_serialize_bytestring__top", must=6, covers=4)
+SER("def_string", "DEF_STRING", "cbor_serialize_string", top="cbor_serialize_string__top", must=6)
+SER("indef_string", "INDEF_STRING", "cbor_serialize_string", top="cbor_serialize_string__top", must=6, covers=4)
+for kind in ("INT", "FLOAT_CTRL", "DEF_BYTESTRING", "DEF_STRING", "INDEF_BYTESTRING", "INDEF_STRING", "ARRAY", "MAP", "TAG"):
+    SER("size_" + kind.lower(), kind, "cbor_serialized_size", top="cbor_serialized_size__top", size=True, must=8,
+        covers=1 if kind in ("INT", "FLOAT_CTRL", "DEF_BYTESTRING", "DEF_STRING") else 2 if kind == "TAG" else 3,
+        props={"C07": FUNC + ["loop"], "C20": FUNC + ["loop"], "C18": FRAME, "C13": [], "C01": SAFETY, "C17": FRAME},
+        replay="tag_readonly" if kind == "TAG" else None)
